@@ -272,6 +272,9 @@ func (ex *Exec) loopHeader(st *State, fr *Frame, b *ssa.BasicBlock, n int, li *l
 			ex.check(st, "inv-entry", fmt.Sprintf("%s/inv-entry#%d.%d%s", fname, n, i+1, labelSuffix(inv)), ctx.EvalBool(inv.Expr), "loop invariant on entry: "+inv.Src, fmt.Sprintf("%s:%d", shortFile(inv.File), inv.Line))
 		}
 		ex.havocLoop(st, fr, b, li)
+		// an arbitrary iteration: earlier iterations may have released locks, so every
+		// acquisition from here on sees state changed by other threads
+		st.locks["*cut*"] = 1
 		ctx = ex.frameCtx(st, fr)
 		for _, inv := range ls.Invariants {
 			if !inv.appliesTo(ex.prop) {
